@@ -36,6 +36,16 @@ func VerifGraphNodeChildren(n *GraphNode) map[string][]*GraphEdge {
 	return out
 }
 
+// VerifGraphNodeParentsWithoutIssuer returns the edges recorded in the node's
+// parentsWithoutIssuer set (certificates issued to this node whose issuer is not
+// in the graph).
+func VerifGraphNodeParentsWithoutIssuer(n *GraphNode) []*GraphEdge {
+	if n.parentsWithoutIssuer == nil {
+		return nil
+	}
+	return n.parentsWithoutIssuer.Edges()
+}
+
 // VerifGraphMissingIssuer returns the missingIssuerNode index: raw issuer name ->
 // edges waiting for an issuer node.
 func VerifGraphMissingIssuer(g *Graph) map[string][]*GraphEdge {
